@@ -96,9 +96,31 @@ PROPS = {
                  "backend)", "payload shapes outside the per-operation menus listed in the bounds"],
         assumptions=["a request is well-formed when RequestMessage.write/read of /repo accept it"],
     ),
+    "C14": dict(
+        modules=["harness.c14"],
+        level="other",
+        explanation="Bounded symbolic execution of the real _process_locate (filter loop, date tracking, access-filtered "
+                    "listing, sort, slicing) against a reference written from the statement. Decomposed into a "
+                    "per-object predicate (one stored object, filter values symbolic, one condition per filter kind / "
+                    "pair) and a list level (2-3 objects with symbolic dates, owners, policies, date filters, offset "
+                    "and maximum).",
+        stubs=["FakeSession", "NullLogger", "engine.time pinned"],
+        outside=["stores of more than 3 objects, more than 2 filters", "negative offset/maximum (not protocol values)",
+                 "order among objects with equal initial date (the statement leaves ties unordered)",
+                 "filter text values come from a 10-entry menu (Locate formats values into DEBUG text)",
+                 "objects with initial date 0 (never produced by the server: every creating handler stamps the clock)"],
+        assumptions=[],
+    ),
 }
 
 CLAIMS = {
+    "C14": dict(
+        text="For every filter kind named in the statement (and listed pairs) with values over the menus/ranges, and "
+             "for stores of up to 3 objects with symbolic dates, owners, policies, offset and maximum, the identifiers "
+             "Locate returns are exactly those of the reference (permitted AND matching, newest first, requested "
+             "window) on every path of the real handler.",
+        note="Decomposition justified by the per-object independence of the filter loop; stub store; bounded sizes.",
+    ),
     "C13": dict(
         text="For every (operation, stored object kind, version) cell and every parameter shape/value inside the "
              "menus and ranges, no path of the real handlers ends in the General Failure catch-all for a request the "
